@@ -23,9 +23,18 @@ def sliceable(cls: Type[T]) -> Type[T]:
     def __getitem__(self, index: Union[int, slice]) -> "Slice":
         return _slice(parent=self, index=index)
 
+    def __iter__(self):
+        """Iterate over our bits, least-significant first.
+        (With `__getitem__` alone Python would ask for bit 0, 1, 2, ... until an `IndexError`,
+        which never comes: out-of-range indices are reported when the `Slice` is resolved.)"""
+        from .elab.helpers.width import width
+
+        return iter([self[i] for i in range(width(self))])
+
     # Add the new behavior to the class
     cls.__getitem__ = __getitem__
     cls.__getitem__.__doc__ = _slice.__doc__
+    cls.__iter__ = __iter__
     # And a marker attribute
     cls.__slices__ = True
     # And don't forget to return that class!
